@@ -79,3 +79,22 @@ Proof.
   specialize (IH s1). rewrite E2 in IH. exact IH.
 Qed.
 Print Assumptions C19_lock_discipline.
+
+(* a gossip round goes through all its destinations whatever the sends return (a refused, unroutable
+   or oversized datagram is logged and dropped): the tick's micro-trace contains exactly one SYN send
+   per target of the round — send results are not even an input of the step — and ends with the
+   liveness evaluation.  (Seeded change C17j — return from the round at the first send error — is the
+   negation of this; the `round` and `loop` suites observe it on the implementation.) *)
+Definition is_syn_send (a : action) : bool := match a with ASend OSyn => true | _ => false end.
+Lemma gossip_actions_sends : forall n, length (filter is_syn_send (gossip_actions n)) = n.
+Proof. induction n as [|n IH]; cbn; [reflexivity|]. rewrite IH. reflexivity. Qed.
+Theorem C19_a_round_sends_to_every_target_and_evaluates : forall s,
+  ls_stopped s = None ->
+  length (filter is_syn_send (snd (step s ETick))) = round_targets s /\
+  ls_evals (fst (step s ETick)) = ls_evals s + 1 /\
+  ls_stopped (fst (step s ETick)) = None.
+Proof.
+  intros s Hs. unfold step. rewrite Hs. cbn [fst snd ls_evals ls_stopped]. split; [|split; reflexivity].
+  rewrite !filter_app, !app_length, gossip_actions_sends. cbn. lia.
+Qed.
+Print Assumptions C19_a_round_sends_to_every_target_and_evaluates.
